@@ -6,7 +6,7 @@ Alternatively  {"seq": [[n_jobs, ntasks], ...], "pin": bool}  : a REUSE sequence
 after the other in THIS process on the default loky backend, so that the reusable executor is resized between them
 (pin=true wraps them in parallel_config('loky', inner_max_num_threads=1) so that the worker environment, hence the executor,
 is the same whatever n_jobs is); call paths are "q0", "q1", ...; ntasks = 0 means `with Parallel(n_jobs=n): pass` (the executor
-is configured but nothing is submitted)
+is configured but nothing is submitted); a third element "fail" / "kill" makes task 0 of that call raise / kill its own worker
 Every task of a call runs the same child call.  All processes append events to <logdir>/events.jsonl (O_APPEND, one short line
 per event).  A task, once started, waits until min(expected workers, ntasks) tasks of ITS call have started (so the
 concurrency the backend grants is really reached: deterministic barrier, generous timeout, no sleeping for luck), holds a
@@ -65,6 +65,17 @@ def task(logdir, call, i, need, child):
     return i
 
 
+def task_bad(logdir, call, i, need, how):
+    """task 0 of an abnormal call fails ("fail": raises) or kills its own worker process ("kill"); the others are ordinary"""
+    if i == 0:
+        time.sleep(0.05)
+        if how == "kill":
+            import signal
+            os.kill(os.getpid(), signal.SIGKILL)
+        raise KeyError("task failure requested by the scenario")
+    return task(logdir, call, i, need, None)
+
+
 def run_node(logdir, tree, path):
     from joblib import Parallel, delayed
     kw = {} if tree["n_jobs"] is None else {"n_jobs": tree["n_jobs"]}
@@ -94,13 +105,26 @@ def run_seq(logdir, spec):
     from joblib.externals.loky import reusable_executor
     cm = parallel_config("loky", inner_max_num_threads=1) if spec.get("pin") else contextlib.nullcontext()
     with cm:
-        for k, (n, m) in enumerate(spec["seq"]):
+        for k, item in enumerate(spec["seq"]):
+            n, m = item[0], item[1]
+            how = item[2] if len(item) > 2 else None
             path = "q%d" % k
             p = Parallel(n_jobs=n)
             eff = p._effective_n_jobs()
             before = id(reusable_executor._executor) if reusable_executor._executor is not None else None
             log(logdir, {"e": "call", "path": path, "pid": os.getpid(), "tid": threading.get_ident(),
                          "kind": type(p._backend).__name__, "level": p._backend.nesting_level, "eff": eff, "n_jobs": n})
+            if how in ("fail", "kill"):
+                # an abnormal call: a task raises / a worker dies; the error reaches the caller and the executor is left
+                # shut down / broken, so the NEXT call gets a replacement executor
+                try:
+                    p(delayed(task_bad)(logdir, path, i, 1, how) for i in range(m))
+                    outcome = "no-exception"
+                except BaseException as e:  # noqa
+                    outcome = type(e).__name__
+                log(logdir, {"e": "after", "path": path, "executor_reused": False, "exec": None, "max_workers": None, "alive": None,
+                             "abnormal": how, "raised": outcome})
+                continue
             if m == 0:
                 # configure only: the executor is fetched (and resized) but no task is submitted, so its workers are not spawned
                 with p:
